@@ -117,7 +117,20 @@ func replayInstall(c *core.Ctx, lfsBin string, b *installBehaviour, idx int) (*c
 	if r := env.Git(repo, "config", "extensions.worktreeConfig", "true"); !r.OK() {
 		return nil, fmt.Errorf("config: %s", r.All())
 	}
+	// "userlink": the hook is a symbolic link to a script the user keeps elsewhere
+	scriptsDir := filepath.Join(root, "userscripts")
+	os.MkdirAll(scriptsDir, 0o755)
 	for _, h := range hooks {
+		if b.Hook0[h] == "userlink" {
+			by, _ := hookBytes("user", h)
+			if err := os.WriteFile(filepath.Join(scriptsDir, h+".sh"), by, 0o755); err != nil {
+				return nil, err
+			}
+			if err := os.Symlink(filepath.Join(scriptsDir, h+".sh"), filepath.Join(hooksDir, h)); err != nil {
+				return nil, err
+			}
+			continue
+		}
 		if by, ok := hookBytes(b.Hook0[h], h); ok {
 			if err := os.WriteFile(filepath.Join(hooksDir, h), by, 0o755); err != nil {
 				return nil, err
@@ -151,6 +164,15 @@ func replayInstall(c *core.Ctx, lfsBin string, b *installBehaviour, idx int) (*c
 		}
 	}
 	classifyHook := func(h string) (string, []byte) {
+		if st, err := os.Lstat(filepath.Join(hooksDir, h)); err == nil && st.Mode()&os.ModeSymlink != 0 {
+			// still the user's link, and the script it names still the user's bytes?
+			tgt, _ := os.Readlink(filepath.Join(hooksDir, h))
+			by, err := os.ReadFile(filepath.Join(scriptsDir, h+".sh"))
+			if want, _ := hookBytes("user", h); err == nil && tgt == filepath.Join(scriptsDir, h+".sh") && string(by) == string(want) {
+				return "userlink", by
+			}
+			return "other", by
+		}
 		by, err := os.ReadFile(filepath.Join(hooksDir, h))
 		if err != nil {
 			return "absent", nil
@@ -226,7 +248,7 @@ func replayInstall(c *core.Ctx, lfsBin string, b *installBehaviour, idx int) (*c
 		}
 		if !s.Force {
 			for _, h := range hooks {
-				if (prevH[h] == "user" || prevH[h] == "userlfs" || prevH[h] == "lfspadtail") && curH[h] != prevH[h] {
+				if (prevH[h] == "user" || prevH[h] == "userlfs" || prevH[h] == "lfspadtail" || prevH[h] == "userlink") && curH[h] != prevH[h] {
 					v := mk("user-hook-preserved", fmt.Sprintf("the user's %s hook (%s) was overwritten or deleted (now %s)", h, prevH[h], curH[h]))
 					v.Fields["hook_class"] = prevH[h]
 					return v, nil
